@@ -111,6 +111,10 @@ def alias_of(p: GProg, d, v: int, form: str):
         return f"t{v}"
     if form == "substr":
         return {0: "n0", 1: "xn0y", 2: "t0z"}.get(v, ids[v])
+    if form == "tag_eq_id":
+        # node 1 carries the tag "n0", which is also the id of node 0: a string is a tag first (documented), so "n0" names
+        # node 1; node 0 itself can only be named by reference
+        return {0: d.exec_nodes[ids[0]], 1: "n0"}.get(v, ids[v])
     return ids[v]
 
 
@@ -129,7 +133,12 @@ def cases(tier: str):
                     for form in (("id", "ref", "tag", "substr") if n <= (2 if q else 3) else (("id", "substr") if n == 3 else ("id",))):
                         yield dict(n=n, es=es4, falsy_inputs=bool(fz), form=form, ydefault=(n >= 2 and off == 0), is_async=[None, True, False][(len(es) + n) % 3])
     yield dict(n=3, es=kinds_rotating([(0, 2), (1, 2)], 0), special="ambiguous_tag", form="id", ydefault=False, falsy_inputs=False, is_async=None)
+    yield dict(n=3, es=kinds_rotating([(0, 2), (1, 2)], 0), special="ambiguous_tag_eq_id", form="id", ydefault=False, falsy_inputs=False, is_async=None)
+    for n in (2, 3):
+        for es in shapes(n):
+            yield dict(n=n, es=kinds_rotating(es, 0), falsy_inputs=False, form="tag_eq_id", ydefault=False, is_async=None)
     yield dict(n=3, es=[], special="identity", form="id", ydefault=False, falsy_inputs=False, is_async=None)
+    yield dict(n=3, es=[], special="setup_chain", form="id", ydefault=False, falsy_inputs=False, is_async=None)
     yield dict(n=3, es=[], special="none_values", form="id", ydefault=False, falsy_inputs=False, is_async=None)
     yield dict(n=3, es=kinds_rotating([(0, 1), (1, 2)], 0), special="ellipsis", form="id", ydefault=True, falsy_inputs=False, is_async=None)
 
@@ -220,7 +229,57 @@ def run_identity(acc, c):
     acc.transitions += 2
 
 
+def run_setup_chain(acc, c):
+    """setup nodes that have dependencies of their own (constants, another setup node), already executed - or not - by the original
+    when compose() is called: the composed DAG computes its outputs from the supplied value and the carried setup results"""
+    nodes = (GNode(setup=True, res="t", consts=(7,)), GNode(edges=(Edge(0, "pos"),), setup=True, res="t", consts=("k",)),
+             GNode(edges=(Edge(1, "pos"), Edge(-1, "pos")), res="t"), GNode(edges=(Edge(2, "pos"), Edge(1, "kw")), res="m"))
+    p = GProg(nodes=nodes, mc=2, params=(("x", NODEFAULT),))
+    ids = p.ids()
+    src = p.source()
+    acc.cases += 1
+    for ran_before in ("call", "setup", "no"):
+        for inputs, outputs, arg in (([p.param_id(0)], [ids[3]], "cx"), ([ids[2]], [ids[3]], "c2"), ([p.param_id(0)], [ids[2], ids[1]], "cx")):
+            d, ns = build_gprog(p)
+            setup_toks = None
+            if ran_before == "call":
+                r0 = H.run_controlled(lambda: d("ox"))
+                setup_toks = r0.value[:2] if r0.outcome == "return" else None
+            elif ran_before == "setup":
+                r0 = H.run_controlled(lambda: d.setup())
+                setup_toks = (d.results.get(ids[0]), d.results.get(ids[1]))
+            acc.evaluations += 1
+            case = dict(c, ran_before=ran_before, inputs=[str(x) for x in inputs], outputs=outputs)
+            try:
+                comp = d.compose("comp", inputs, outputs)
+            except Exception as e:  # noqa: BLE001
+                acc.violation(V("compose_refused", f"compose({inputs}, {outputs}) with a chain of setup nodes (setup ran before: {ran_before}) raised {e!r}"), case, (), None, src)
+                continue
+            res = H.run_controlled(lambda: comp(arg))
+            if res.outcome != "return":
+                acc.violation(V("composed_call_failed", f"compose({inputs}, {outputs}) after {ran_before}: composed DAG call raised {res.exc!r}", exc=type(res.exc).__name__),
+                              case, (), res.trace, src)
+                continue
+            ent = {e[1]: e for e in res.trace if e[0] == "enter"}
+            if setup_toks is not None:
+                if ids[0] in ent or ids[1] in ent:
+                    acc.violation(V("setup_rerun_in_composed", f"setup nodes already executed by the original were entered again: {sorted(ent)}"), case, (), res.trace, src)
+                if ids[2] in ent and ent[ids[2]][5][0] != setup_toks[1]:
+                    acc.violation(V("setup_result_not_shared", f"n2 received {ent[ids[2]][5]!r}, the original's setup result is {setup_toks[1]!r}"), case, (), res.trace, src)
+            else:
+                need = {ids[0], ids[1]}
+                if not need <= set(ent):
+                    acc.violation(V("composed_wrong_nodes", f"setup nodes never executed before must run in the composed DAG; entered {sorted(ent)}"), case, (), res.trace, src)
+            if ids[3] in outputs and ids[3] not in ent:
+                acc.violation(V("composed_wrong_nodes", f"output node n3 was not executed; entered {sorted(ent)}"), case, (), res.trace, src)
+            acc.mark_nontrivial(("setup_chain", ran_before, repr(inputs), repr(outputs)))
+    acc.states += 9
+    acc.transitions += 9
+
+
 def run_one(acc, c):
+    if c.get("special") == "setup_chain":
+        return run_setup_chain(acc, c)
     if c.get("special") == "identity":
         return run_identity(acc, c)
     if c.get("special") == "none_values":
@@ -230,8 +289,12 @@ def run_one(acc, c):
     if c["form"] == "substr":
         tags = {0: "t0", 1: "xn0y", 2: "t0z"}
         tags = {k: v for k, v in tags.items() if k < n}
+    if c["form"] == "tag_eq_id":
+        tags = {1: "n0"}
     if c.get("special") == "ambiguous_tag":
         tags = {0: "S", 1: "S"}
+    if c.get("special") == "ambiguous_tag_eq_id":
+        tags = {1: "n0", 2: "n0"}
     p = make_prog(n, [tuple(e) for e in c["es"]], tags, c["ydefault"])
     ids = p.ids()
     src = p.source()
@@ -248,6 +311,16 @@ def run_one(acc, c):
                 acc.violation(V("ambiguous_alias_accepted", f"compose(inputs={inputs}, outputs={outputs}) with a tag naming two nodes was accepted"), c, (), None, src)
             except ValueError:
                 acc.mark_nontrivial(("ambiguous", repr(inputs), repr(outputs)))
+        return
+    if c.get("special") == "ambiguous_tag_eq_id":
+        # "n0" is the tag of two nodes (and the id of a third): a string is a tag first, so the alias is ambiguous
+        for inputs, outputs in ((["n0"], [ids[2]]), ([], ["n0"]), ("n0", ids[2]), ([], "n0")):
+            acc.evaluations += 1
+            try:
+                d.compose("comp", inputs, outputs)
+                acc.violation(V("ambiguous_alias_accepted", f"compose(inputs={inputs}, outputs={outputs}): 'n0' is a tag carried by two nodes (and the id of another) and was accepted"), c, (), None, src)
+            except ValueError:
+                acc.mark_nontrivial(("ambiguous_eq_id", repr(inputs), repr(outputs)))
         return
     verts = [X] + list(range(n))
     if c.get("special") == "ellipsis":
